@@ -1,5 +1,6 @@
 import LLRP.Proofs.ReadSide
 import LLRP.Gen.Schema
+import LLRP.Gen.ReadFacts
 /-!
 # C10 — a hostile or broken peer cannot crash, wedge or balloon the client
 
@@ -11,6 +12,23 @@ processes). Decoder behaviour on malformed payloads is C11's (`decode` is total:
 -/
 namespace LLRP.C10
 open LLRP LLRP.ReadSide
+
+/-! ## what the fold takes for granted about handlers
+
+`rd` treats a handler call as a step that returns (or panics). For handlers installed by the user that is their
+documented contract ("a handler blocks reads from making progress"). For the one handler the library installs itself —
+`ackHandler`, run for every KeepAlive — it is a fact about the source, regenerated on every run: its only channel send
+is the communication of a `select` with a `default` clause, it contains no receive, no `select` without `default`, no
+range over a channel, no `go`, and calls nothing but `panic`. Were the send blocking, a peer that stops reading and
+then hangs up would leave the read goroutine parked on the full ack queue for ever (nobody drains it once the write
+loop has exited) and `Connect` stuck in `wg.Wait()`: `ends_with_error` would be false of the code. -/
+
+/-- **ack_handler_nonblocking** (regenerated fact): the built-in KeepAlive handler cannot block the read goroutine -/
+theorem ack_handler_nonblocking :
+    Gen.ack_sends = Gen.ack_guardedSends ∧ Gen.ack_otherBlocking = [] ∧ Gen.ack_calls = [] := by decide
+
+/-- (regenerated fact) `handleGuarded` defers a `recover()` before calling the handler: the model's `guarded` -/
+theorem handle_guarded_recovers : Gen.guard_recovers = true ∧ Gen.guard_callsHandler = true := by decide
 
 /-- **rd_no_panic**: for every byte stream, handler table, await history and handler behaviour — panicking handlers
 included — no panic leaves the read loop -/
@@ -37,7 +55,8 @@ theorem wait_only_when_closing (cfg : Cfg) (env : Nat → Step) (a0 : List Nat) 
   rdLoop_fin cfg env (s.length + 1) 0 0 a0 false s (Nat.lt_succ_self _)
 
 /-- **alloc_bounded** (loop): every size passed to `make` while serving is at most MaxBufferedPayloadSz — the 10-byte
-header buffers and the reply buffers — whatever length the headers declare -/
+header buffers, the reply buffers, and what a handler allocates when it obtains the payload with `msg.UnmarshalTo` /
+`msg.data()` (behaviour `viaData`, on a payload that is still on the connection) — whatever length the headers declare -/
 theorem alloc_bounded (cfg : Cfg) (env : Nat → Step) (a0 : List Nat) (s : Bytes) :
     ∀ a ∈ (rd cfg env a0 s).allocs, a ≤ Gen.MaxBufferedPayloadSz :=
   rdLoop_allocs cfg env _ 0 0 a0 false s
@@ -67,6 +86,32 @@ theorem msgData_allocs (m : Msg) : ∀ a ∈ (msgData m).allocs, a ≤ Gen.MaxBu
     · simp only [MaxBuf, Nat.not_lt] at h
       simp only [readFull]
       split <;> (intro a ha; simp at ha; subst ha; exact h)
+
+/-- **data_alloc_bounded**: `Message.data()` in each of the three states a Message's payload can be in — absent
+(over-limit reply), buffered (reply within the limit), still on the connection (what MessageHandlers get) — passes to
+`make` nothing larger than the limit, for every declared length -/
+theorem data_alloc_bounded (h : Header) (b : Bytes) :
+    (∀ a ∈ (msgData ⟨h, .absent⟩).allocs, a ≤ Gen.MaxBufferedPayloadSz) ∧
+    (∀ a ∈ (msgData ⟨h, .buffered b⟩).allocs, a ≤ Gen.MaxBufferedPayloadSz) ∧
+    (∀ a ∈ (msgData ⟨h, .stream b⟩).allocs, a ≤ Gen.MaxBufferedPayloadSz) :=
+  ⟨msgData_allocs _, msgData_allocs _, msgData_allocs _⟩
+
+/-- the handler behaviour `viaData` of the fold is `msgData` on a streamed payload: same allocation, and the declared
+size is refused before the reader is touched -/
+theorem viaData_is_msgData (h : Header) (avail : Bytes) :
+    (msgData ⟨h, .stream avail⟩).allocs = Beh.allocs .viaData true h.payloadLen ∧
+    (h.payloadLen > Gen.MaxBufferedPayloadSz → (msgData ⟨h, .stream avail⟩).out = .err ∧ Beh.took .viaData h.payloadLen avail.length = 0) := by
+  constructor
+  · by_cases c : h.payloadLen > MaxBuf
+    · have c' : ¬ h.payloadLen ≤ MaxBuf := by omega
+      simp [msgData, Beh.allocs, c, c']
+    · have c' : h.payloadLen ≤ MaxBuf := by omega
+      simp only [msgData, c, if_false, readFull, Beh.allocs, c', Bool.true_and, decide_true, if_true]
+      split <;> rfl
+  · intro c
+    have c' : ¬ h.payloadLen ≤ MaxBuf := by simp only [MaxBuf]; omega
+    have c2 : h.payloadLen > MaxBuf := by simp only [MaxBuf]; omega
+    simp [msgData, Beh.took, c2, c']
 
 theorem gsvDecode_no_panic (S : Schema) (t : Nat) (d : Bytes) : gsvDecode S t d ≠ .panic := by
   unfold gsvDecode
@@ -190,6 +235,10 @@ def exHuge : Bytes := [4, 12, 0xff, 0xff, 0xff, 0xff, 0, 0, 0, 0]
 example : (rd { handlers := [], hasDefault := false } (fun _ => {}) [0] exHuge).allocs = [10, 10] := by decide
 example : ((rd { handlers := [], hasDefault := false } (fun _ => {}) [0] exHuge).deliveries.map
     (fun d => (sendMessageReply d.toMsg).1)) = [.err] := by decide
+-- an unsolicited report claiming 256 MiB whose handler calls UnmarshalTo: refused, nothing allocated for it
+example : (msgData ⟨⟨1, 61, 268435456, 0⟩, .stream [1, 2, 3]⟩).out = .err ∧ (msgData ⟨⟨1, 61, 268435456, 0⟩, .stream [1, 2, 3]⟩).allocs = [] := by decide
+example : (rd { handlers := [61], hasDefault := false } (fun _ => { beh := .viaData }) []
+    [4, 61, 0x10, 0, 0, 10, 0, 0, 0, 1, 7, 7]).allocs = [10, 10] := by decide
 -- a panicking handler is reachable in the model (`callRaw`), and the guard is what contains it
 example : callRaw (.panics 0) = .panicked := by decide
 -- an unrequested CloseConnectionResponse followed by EOF is an error …
